@@ -71,7 +71,7 @@ def run_unit(verif, name, pid, tier, scratch):
         if O.degraded: return None, None, U.UnitError("skipped: proof anchors lost")
         try:
             Bc = U.build(udir, REPO, "canary")
-            return Bc, VR.run(Bc.text, scratch, name + "_canary", Bc, multiple_errors=6), None
+            return Bc, VR.run(Bc.text, scratch, name + "_canary", Bc, multiple_errors=6, tolerate_rlimit=True), None
         except U.UnitError as e:
             return None, None, e
     fut_c = pool.submit(_canary)
@@ -136,6 +136,20 @@ def run_unit(verif, name, pid, tier, scratch):
                 O.canaries[fid] = fid in hit
             for tn in Bc.template_canaries:
                 O.canaries["template:" + tn] = any(d.label == "canary:" + tn for d in Rc.diags)
+            # a function that ran out of resources in the canary run was not proved either: its canary counts as not verified
+            clines = Bc.text.split("\n")
+            fn_re = re.compile(r"^\s*(pub(\([a-z]+\))?\s+)?((proof|exec|const|async)\s+)*fn\s")
+            def _fn_start(l):
+                while l > 1 and not fn_re.match(clines[l - 1]): l -= 1
+                return l
+            rl_fns = {_fn_start(l) for l in getattr(Rc, "rlimit_lines", [])}
+            for l, lab in Bc.labels.items():
+                if lab.startswith("canary") and _fn_start(l) in rl_fns:
+                    if lab == "canary":
+                        for ex in Bc.items:
+                            if ex.gen_lo <= l <= ex.gen_hi and ex.id in O.canaries: O.canaries[ex.id] = True
+                    else:
+                        O.canaries["template:" + lab.split(":", 1)[1]] = True
             bad = [f for f, ok in O.canaries.items() if not ok]
             if bad and not [f for f in O.failed if f[0] not in kf_names]:
                 O.undecided = f"vacuity: canary postcondition verified for {bad} (contradictory precondition or shim)"
